@@ -765,14 +765,27 @@ func protocolFacts() {
 	if el != nil {
 		elb = squash(src(el.Body))
 	}
+	// the increment has to be a statement of the function body itself (unconditional), not one nested in an
+	// `if` or a loop: a retried election must not reuse the term of an attempt that has already sent requests
+	incTop := false
+	if el != nil {
+		for _, st := range el.Body.List {
+			if squash(src(st)) == "s.shardMetadata.Term++" {
+				incTop = true
+			}
+		}
+	}
 	iInc := strings.Index(elb, "s.shardMetadata.Term++")
+	if !incTop {
+		iInc = -1
+	}
 	iStore := strings.Index(elb, "s.statusResource.UpdateShardMetadata(s.namespace, s.shard, s.shardMetadata)")
 	iNt := strings.Index(elb, "s.newTermQuorum()")
 	iSel := strings.Index(elb, "selectNewLeader(fr)")
 	iBl := strings.Index(elb, "s.becomeLeader(newLeader, followers)")
 	add("coordinatorPersistsTermBeforeNewTerm", "Bool", boolLean(iInc >= 0 && iInc < iStore && iStore < iNt && iNt < iSel && iSel < iBl),
 		"coordinator/controllers/shard_controller.go: electLeader",
-		"the term is incremented and written to the metadata store before any NewTerm request is sent; the leader is selected from the answers; BecomeLeader follows")
+		"the term is incremented unconditionally (every attempt gets a fresh term) and written to the metadata store before any NewTerm request is sent; the leader is selected from the answers; BecomeLeader follows")
 	sl := funcDecl(sc, "", "selectNewLeader")
 	slb := ""
 	if sl != nil {
